@@ -44,6 +44,10 @@ def resultOp (op : String) (j : Json) : Except String Json := do
     let a ← jResult (← fld j "a"); let b ← jResult (← fld j "b")
     let f ← jBool (← fld j "freeze")
     return resultJ (← merge f a b)
+  | "result.accumulate" =>
+    let n ← jNat (← fld j "n_ext")
+    let nodes ← (← jArr (← fld j "nodes")).mapM fun nd => do (← jArr nd).mapM jResult
+    return resultJ (← accumulateNested n nodes)
   | "result.merge_legacy_species" =>
     let a ← jEmis (← fld j "a"); let b ← jEmis (← fld j "b")
     return optJ emisJ (mergeEmisLegacy a b)
